@@ -178,3 +178,18 @@ def guard_env(f, bi, ex, e, limit=4096):
         if lo is not None and hi is not None and 0 <= hi - lo <= limit:
             out[x[1]] = set(range(lo, hi + 1))
     return out
+
+
+def line_readers(F):
+    """local helpers of the FASTA reader that return what `read_until` returned (io::Result<usize>): they stand for read_until in
+    the rules about line handling (that they hand the result on unchanged is C16-READ's clause)"""
+    import re as _re
+    out = set()
+    for f in F.funcs.values():
+        if f.crate != "ragc_core" or not _re.search(r"^ragc_core::genome_io::", f.key):
+            continue
+        if not any(t["k"] == "call" and not t.get("indirect") and _re.search(r"BufRead>?::read_until$", t["callee"]) for _, t in f.calls()):
+            continue
+        if _re.search(r"-> (std::io::(error::)?Result<usize>|core::result::Result<usize, std::io::(error::)?Error>)", f.d.get("sig", "")):
+            out.add(f.key)
+    return out
